@@ -48,6 +48,11 @@ def mutants(prog):
         ("cube affine", "deepali.core.cube", "Cube.transform", "hmm(self.inverse_affine(), -self.center())", "hmm(self.inverse_affine(), self.center())", "T1.cube"),
         ("hmm: affine*homogeneous t", "deepali.core.linalg", "homogeneous_matmul", "t = a[..., D:] + torch.bmm(a[..., :D], b[..., D:])", "t = torch.bmm(a[..., :D], b[..., D:])", "T1."),
         ("homogeneous_transform transpose", "deepali.core.linalg", "homogeneous_transform", "transform[:, :D, :D].transpose(1, 2)", "transform[:, :D, :D]", "T1."),
+        ("origin: singleton axis treated as empty", G, "Grid.origin", "torch.where(size.gt(0), size.sub(1), size).div(2)", "torch.where(size.gt(1), size.sub(1), size).div(2)", "T1.itk-singleton"),
+        ("hmm: affine*homogeneous drops A t", "deepali.core.linalg", "homogeneous_matmul", "t = torch.bmm(a[..., :D], b[..., D:])\n                c = torch.cat([A, t], dim=-1)\n                c_type = HomogeneousTensorType.HOMOGENEOUS\n        elif", "t = b[..., D:]\n                c = torch.cat([A, t], dim=-1)\n                c_type = HomogeneousTensorType.HOMOGENEOUS\n        elif", "T6.compose"),
+        ("apply_transform: same-domain shortcut", G, "Grid.apply_transform", "if to_grid is not None and to_grid != self or axes is not to_axes:", "if to_grid is not None and (not self.same_domain_as(to_grid)) or axes is not to_axes:", "T1.two-grids"),
+        ("transform: internal float size", G, "Grid.transform", "half_size = 0.5 * self.size_tensor()", "half_size = 0.5 * self._size", "fractional-size"),
+        ("origin_: internal float size", G, "Grid.origin_", "size = self.size_tensor()", "size = self._size", "fractional-size"),
     ]
     for name, mod, fn, old, new, expect in specs:
         ov = source_sub(prog, mod, fn, old, new)
